@@ -276,7 +276,7 @@ def _classes(case):
 def shard(ctx):
     global _CTX
     _CTX = ctx
-    ctx.given("tree", tree_cases(ctx.scale(3, 4), 3, ctx.scale(1, 2)), ctx.scale(2000, 20000), nontrivial=_nontrivial, classify=_classes)
+    ctx.given("tree", tree_cases(ctx.scale(3, 4), 3, ctx.scale(1, 2)), ctx.scale(2000, 16000), nontrivial=_nontrivial, classify=_classes)
 
 
 def _has(case, pred):
